@@ -122,7 +122,9 @@ def run(src, q):
     shape = Shape.from_json(q['shape'])
     limit = src.int('limit', 1, None) if not q.get('other_state') else None
     w = scen.build_world(src, shape, step_limit=limit, host_order=q.get('host_order'))
-    A = scen.make_action(w, q['kind'], tuple(q['target']), q.get('name'), q.get('os'))
+    # costs in eighths (0.125 steps): exact in float32, finer than two decimals
+    cost8 = None if q['kind'] == 'noop' else src.quarter('a_cost', 0, 400) / 2
+    A = scen.make_action(w, q['kind'], tuple(q['target']), q.get('name'), q.get('os'), cost=cost8)
     r = dyn.Rec()
     r.q, r.w, r.A = q, w, A
     draws = []
